@@ -9,12 +9,16 @@
 (* subscriber.  WithDone = TRUE models Publish selecting on the            *)
 (* subscriber's done channel (a closing subscriber releases a blocked      *)
 (* publisher); FALSE models the plain blocking send.                       *)
+(* Handlers are subscribers driven by Topic.Handle (topic.go:108-120):     *)
+(* Subscribe, then Next / callback in a loop; a failing callback or a      *)
+(* cancelled context ends the loop and the deferred Close unsubscribes.    *)
 (***************************************************************************)
 EXTENDS Integers, Sequences, FiniteSets, TLC
 
 CONSTANTS Subs,        \* subscribers
           Buffered,    \* subset of Subs created with sendLast (channel capacity 1)
-          MaxPublish, MaxCalls, WithDone
+          MaxPublish, MaxCalls, WithDone,
+          Handlers     \* subset of Subs \ Buffered: consumed through Topic.Handle
 
 VARIABLES mu,        \* holder of the topic mutex: "none" | "pub" | a subscriber
           ppc,       \* publisher: "idle" | "wantMu" | "sending" | "returned"
@@ -26,75 +30,114 @@ VARIABLES mu,        \* holder of the topic mutex: "none" | "pub" | a subscriber
           buf,       \* [Subs -> number of values in the channel buffer]
           got,       \* [Subs -> values received so far]
           lastRet,   \* [Subs -> "none" | "value" | "closed"]  result of the last Next
-          npub, ncalls
-vars == <<mu, ppc, todo, spc, cpc, registered, closing, buf, got, lastRet, npub, ncalls>>
+          npub, ncalls,
+          hst,       \* [Handlers -> "idle" | "wantSub" | "running" | "closing" | "returned"]
+          hfail,     \* [Handlers -> 0..MaxPublish]: the callback fails on its hfail-th value (0: never)
+          hcancel    \* handlers whose context has been cancelled
+hvars == <<hst, hfail, hcancel>>
+vars == <<mu, ppc, todo, spc, cpc, registered, closing, buf, got, lastRet, npub, ncalls, hst, hfail, hcancel>>
 
 Init == /\ mu = "none" /\ ppc = "idle" /\ todo = <<>>
-        /\ spc = [s \in Subs |-> "idle"] /\ cpc = [s \in Subs |-> "idle"] /\ registered = Subs /\ closing = {}
+        /\ spc = [s \in Subs |-> "idle"] /\ cpc = [s \in Subs |-> "idle"] /\ registered = Subs \ Handlers /\ closing = {}
+        /\ hst = [s \in Handlers |-> "idle"] /\ hfail = [s \in Handlers |-> 0] /\ hcancel = {}
         /\ buf = [s \in Subs |-> 0] /\ got = [s \in Subs |-> 0] /\ lastRet = [s \in Subs |-> "none"]
         /\ npub = 0 /\ ncalls = 0
 
 (* ---- external: a process starts a call ---- *)
 StartPublish == /\ ppc \in {"idle", "returned"} /\ npub < MaxPublish /\ ncalls < MaxCalls
                 /\ ppc' = "wantMu" /\ npub' = npub + 1 /\ ncalls' = ncalls + 1
-                /\ UNCHANGED <<mu, todo, spc, cpc, registered, closing, buf, got, lastRet>>
-StartNext(s) == /\ spc[s] \in {"idle", "returned"} /\ ncalls < MaxCalls
+                /\ UNCHANGED <<mu, todo, spc, cpc, registered, closing, buf, got, lastRet, hst, hfail, hcancel>>
+StartNext(s) == /\ s \notin Handlers /\ spc[s] \in {"idle", "returned"} /\ ncalls < MaxCalls
                 /\ s \notin closing                      \* Next after Close has begun is a usage error (it never returns)
                 /\ spc' = [spc EXCEPT ![s] = "next"] /\ ncalls' = ncalls + 1
-                /\ UNCHANGED <<mu, ppc, todo, cpc, registered, closing, buf, got, lastRet, npub>>
-StartClose(s) == /\ cpc[s] = "idle" /\ ncalls < MaxCalls     \* at any moment, also while the subscriber sits in Next
+                /\ UNCHANGED <<mu, ppc, todo, cpc, registered, closing, buf, got, lastRet, npub, hst, hfail, hcancel>>
+StartClose(s) == /\ s \notin Handlers /\ cpc[s] = "idle" /\ ncalls < MaxCalls     \* at any moment, also while the subscriber sits in Next
                  /\ cpc' = [cpc EXCEPT ![s] = "wantMu"] /\ ncalls' = ncalls + 1
                  /\ closing' = closing \cup {s}          \* the done channel is closed first, without the topic mutex
-                 /\ UNCHANGED <<mu, ppc, todo, spc, registered, buf, got, lastRet, npub>>
-External == StartPublish \/ \E s \in Subs : StartNext(s) \/ StartClose(s)
+                 /\ UNCHANGED <<mu, ppc, todo, spc, registered, buf, got, lastRet, npub, hst, hfail, hcancel>>
+StartHandle(s, k) ==   \* Topic.Handle is called with a callback that fails on its k-th value (k = 0: never)
+    /\ hst[s] = "idle" /\ ncalls < MaxCalls
+    /\ hst' = [hst EXCEPT ![s] = "wantSub"] /\ hfail' = [hfail EXCEPT ![s] = k] /\ ncalls' = ncalls + 1
+    /\ UNCHANGED <<mu, ppc, todo, spc, cpc, registered, closing, buf, got, lastRet, npub, hcancel>>
+CancelHandle(s) ==     \* the context handed to Handle is cancelled
+    /\ hst[s] \in {"wantSub", "running"} /\ s \notin hcancel /\ ncalls < MaxCalls
+    /\ hcancel' = hcancel \cup {s} /\ ncalls' = ncalls + 1
+    /\ UNCHANGED <<mu, ppc, todo, spc, cpc, registered, closing, buf, got, lastRet, npub, hst, hfail>>
+External == \/ StartPublish \/ \E s \in Subs : StartNext(s) \/ StartClose(s)
+            \/ \E s \in Handlers : CancelHandle(s) \/ \E k \in 0..MaxPublish : StartHandle(s, k)
 
 (* ---- internal steps ---- *)
 Perms(S) == {p \in [1..Cardinality(S) -> S] : \A i, j \in 1..Cardinality(S) : i # j => p[i] # p[j]}
 PubLock == /\ ppc = "wantMu" /\ mu = "none"
            /\ mu' = "pub" /\ ppc' = "sending" /\ todo' \in Perms(registered)
-           /\ UNCHANGED <<spc, cpc, registered, closing, buf, got, lastRet, npub, ncalls>>
+           /\ UNCHANGED <<spc, cpc, registered, closing, buf, got, lastRet, npub, ncalls, hst, hfail, hcancel>>
 (* send to one of the remaining subscribers (map iteration order is arbitrary) *)
 PubSendRendezvous(s) ==
     /\ ppc = "sending" /\ todo # <<>> /\ s = Head(todo) /\ s \notin Buffered /\ spc[s] = "next"
     /\ todo' = Tail(todo)
     /\ spc' = [spc EXCEPT ![s] = "returned"] /\ got' = [got EXCEPT ![s] = @ + 1]
     /\ lastRet' = [lastRet EXCEPT ![s] = "value"]
-    /\ UNCHANGED <<mu, ppc, cpc, registered, closing, buf, npub, ncalls>>
+    /\ UNCHANGED <<mu, ppc, cpc, registered, closing, buf, npub, ncalls, hst, hfail, hcancel>>
 PubSendBuffered(s) ==
     /\ ppc = "sending" /\ todo # <<>> /\ s = Head(todo) /\ s \in Buffered /\ buf[s] = 0
     /\ todo' = Tail(todo) /\ buf' = [buf EXCEPT ![s] = 1]
-    /\ UNCHANGED <<mu, ppc, spc, cpc, registered, closing, got, lastRet, npub, ncalls>>
+    /\ UNCHANGED <<mu, ppc, spc, cpc, registered, closing, got, lastRet, npub, ncalls, hst, hfail, hcancel>>
 PubSkipClosing(s) ==   \* only with the done channel: a closing subscriber does not block the publisher
     /\ WithDone /\ ppc = "sending" /\ todo # <<>> /\ s = Head(todo) /\ s \in closing
     /\ todo' = Tail(todo)
-    /\ UNCHANGED <<mu, ppc, spc, cpc, registered, closing, buf, got, lastRet, npub, ncalls>>
+    /\ UNCHANGED <<mu, ppc, spc, cpc, registered, closing, buf, got, lastRet, npub, ncalls, hst, hfail, hcancel>>
 PubUnlock == /\ ppc = "sending" /\ todo = <<>>
              /\ mu' = "none" /\ ppc' = "returned"
-             /\ UNCHANGED <<todo, spc, cpc, registered, closing, buf, got, lastRet, npub, ncalls>>
+             /\ UNCHANGED <<todo, spc, cpc, registered, closing, buf, got, lastRet, npub, ncalls, hst, hfail, hcancel>>
 NextFromBuffer(s) ==
     /\ spc[s] = "next" /\ buf[s] > 0
     /\ buf' = [buf EXCEPT ![s] = 0] /\ got' = [got EXCEPT ![s] = @ + 1]
     /\ spc' = [spc EXCEPT ![s] = "returned"] /\ lastRet' = [lastRet EXCEPT ![s] = "value"]
-    /\ UNCHANGED <<mu, ppc, todo, cpc, registered, closing, npub, ncalls>>
+    /\ UNCHANGED <<mu, ppc, todo, cpc, registered, closing, npub, ncalls, hst, hfail, hcancel>>
 NextSeesClosed(s) ==   \* Next on a subscription that has been closed returns an error
     /\ spc[s] = "next" /\ s \notin registered /\ buf[s] = 0
     /\ spc' = [spc EXCEPT ![s] = "returned"] /\ lastRet' = [lastRet EXCEPT ![s] = "closed"]
-    /\ UNCHANGED <<mu, ppc, todo, cpc, registered, closing, buf, got, npub, ncalls>>
+    /\ UNCHANGED <<mu, ppc, todo, cpc, registered, closing, buf, got, npub, ncalls, hst, hfail, hcancel>>
 CloseLock(s) ==
     /\ cpc[s] = "wantMu" /\ mu = "none"
     /\ registered' = registered \ {s}
     /\ cpc' = [cpc EXCEPT ![s] = "returned"]
-    /\ UNCHANGED <<mu, ppc, todo, spc, closing, buf, got, lastRet, npub, ncalls>>
-Internal == PubLock \/ PubUnlock
+    /\ UNCHANGED <<mu, ppc, todo, spc, closing, buf, got, lastRet, npub, ncalls, hst, hfail, hcancel>>
+(* ---- Topic.Handle ---- *)
+HandleSubscribe(s) ==   \* Subscribe(false) takes the topic mutex
+    /\ hst[s] = "wantSub" /\ mu = "none"
+    /\ registered' = registered \cup {s} /\ hst' = [hst EXCEPT ![s] = "running"]
+    /\ spc' = [spc EXCEPT ![s] = "next"]
+    /\ UNCHANGED <<mu, ppc, todo, cpc, closing, buf, got, lastRet, npub, ncalls, hfail, hcancel>>
+HandleCallback(s) ==    \* a value was received: the callback runs; on success the loop calls Next again
+    /\ hst[s] = "running" /\ spc[s] = "returned" /\ lastRet[s] = "value"
+    /\ IF hfail[s] # 0 /\ got[s] >= hfail[s]
+       THEN /\ hst' = [hst EXCEPT ![s] = "closing"] /\ closing' = closing \cup {s}     \* return err -> deferred sub.Close()
+            /\ cpc' = [cpc EXCEPT ![s] = "wantMu"] /\ lastRet' = [lastRet EXCEPT ![s] = "cberr"] /\ spc' = spc
+       ELSE /\ spc' = [spc EXCEPT ![s] = "next"] /\ UNCHANGED <<hst, closing, cpc, lastRet>>
+    /\ UNCHANGED <<mu, ppc, todo, registered, buf, got, npub, ncalls, hfail, hcancel>>
+HandleCancelled(s) ==   \* Next(ctx) returns the context's error
+    /\ hst[s] = "running" /\ spc[s] = "next" /\ s \in hcancel
+    /\ spc' = [spc EXCEPT ![s] = "returned"] /\ lastRet' = [lastRet EXCEPT ![s] = "cancelled"]
+    /\ hst' = [hst EXCEPT ![s] = "closing"] /\ closing' = closing \cup {s} /\ cpc' = [cpc EXCEPT ![s] = "wantMu"]
+    /\ UNCHANGED <<mu, ppc, todo, registered, buf, got, npub, ncalls, hfail, hcancel>>
+HandleReturn(s) ==
+    /\ hst[s] = "closing" /\ cpc[s] = "returned"
+    /\ hst' = [hst EXCEPT ![s] = "returned"]
+    /\ UNCHANGED <<mu, ppc, todo, spc, cpc, registered, closing, buf, got, lastRet, npub, ncalls, hfail, hcancel>>
+
+Internal == \/ PubLock \/ PubUnlock
             \/ \E s \in Subs : PubSendRendezvous(s) \/ PubSendBuffered(s) \/ PubSkipClosing(s)
                                \/ NextFromBuffer(s) \/ NextSeesClosed(s) \/ CloseLock(s)
+            \/ \E s \in Handlers : HandleSubscribe(s) \/ HandleCallback(s) \/ HandleCancelled(s) \/ HandleReturn(s)
 
 Next_ == External \/ Internal
 Spec == Init /\ [][Next_]_vars
 
 ---------------------------------------------------------------------------
 Settled == ~ENABLED Internal
-InCall == (IF ppc \in {"wantMu", "sending"} THEN {"pub"} ELSE {}) \cup {s \in Subs : spc[s] = "next"}
+InCall == (IF ppc \in {"wantMu", "sending"} THEN {"pub"} ELSE {}) \cup {s \in Subs \ Handlers : spc[s] = "next"}
+          \cup {s \in Handlers : hst[s] \in {"wantSub", "running", "closing"}}
 InClose == {s \in Subs : cpc[s] = "wantMu"}
 (* a subscriber that closes its subscription never wedges the publisher or itself: once settled, a running
    Close has returned, and a Publish is only waiting for subscribers that neither receive nor close *)
@@ -103,6 +146,9 @@ CloseNeverWedges ==
                      \* the only legitimate reason: the publisher is blocked on ANOTHER subscriber that neither receives nor closes
                      (ppc = "sending" /\ todo # <<>> /\ Head(todo) # s /\ Head(todo) \notin closing)
                /\ (ppc = "sending" => todo # <<>> /\ Head(todo) \notin closing)
+               \* a Handle whose callback failed or whose context was cancelled returns (it is not left behind subscribed)
+               /\ \A s \in Handlers : hst[s] = "closing" => (ppc = "sending" /\ todo # <<>> /\ Head(todo) # s /\ Head(todo) \notin closing)
+               /\ \A s \in Handlers : (hst[s] = "running" /\ s \in hcancel) => spc[s] # "next"
 (* the mutex is free whenever nobody is inside Publish *)
 MutexSane == (mu = "pub") = (ppc = "sending")
 =============================================================================
